@@ -11,8 +11,8 @@ import ast
 import re
 
 from .. import flow
-from ..astutil import body_walk, call_name, call_recv, calls_in, kwarg, norm, strip_await
-from .common import where
+from ..astutil import atom_polarity, body_walk, call_name, call_recv, calls_in, kwarg, norm, strip_await
+from .common import parmap, where
 
 PROP = "C12"
 EXPLANATION = (
@@ -331,6 +331,31 @@ def r12_5(ctx):
             ctx.bad("R12.5", us.module, us.qual, f"except {hn}: _remove_stale_mailbox(...)", "a mailbox's row (UIDVALIDITY, UIDs, subscription) is dropped on an error that does not mean 'folder is gone' (e.g. a transient EMFILE/EACCES during the start-up scan): the folder is re-discovered as new with a new UIDVALIDITY", c.lineno)
 
 
+def r12_6(ctx):
+    """The start-up / periodic folder scan may create a SPECIAL-USE mailbox only when its folder is *missing*.  Mailbox.create()
+    does not refuse a name that exists as a \\Noselect placeholder - it revives it - so an unguarded create() undoes a DELETE
+    at the next restart."""
+    p = ctx.p
+    fi = p.func("user_server.IMAPUserServer.find_all_folders")
+    ctx.analysed(fi)
+    par = parmap(fi)
+    creates = [c for c in calls_in(fi.node) if call_name(c) == "create" and norm(call_recv(c) or ast.Name("")) == "Mailbox"]
+    ctx.floor("R12.6", len(creates), 1, "Mailbox.create() calls in the folder scan")
+    for c in creates:
+        cur, guarded = c, False
+        while cur in par:
+            pr = par[cur]
+            if isinstance(pr, ast.If) and cur in pr.body:
+                pos = atom_polarity(pr.test, lambda x: isinstance(x, ast.Call) and call_name(x) == "folder_exists" and x.args and c.args and norm(x.args[0]) == norm(c.args[0]))
+                if pos is False:
+                    guarded = True
+            cur = pr
+        if guarded:
+            ctx.ok("R12.6", where(fi), f"{norm(c, 50)} only under `not self.folder_exists(<that name>)`")
+        else:
+            ctx.bad("R12.6", fi.module, fi.qual, norm(c, 80), "the folder scan calls Mailbox.create() for a SPECIAL-USE name without first finding its folder missing: a deleted-but-kept (\\Noselect) Archive/Junk/... becomes selectable again after a restart", c.lineno)
+
+
 def run(ctx):
     ctx.do(r12_5)
     res = ctx.do(r12_1)
@@ -340,5 +365,8 @@ def run(ctx):
     ctx.do(r12_2)
     ctx.do(r12_3, written, read)
     ctx.do(r12_4)
+    ctx.do(r12_6)
+    from . import c13
+    ctx.do(c13.r13_5)
     for k, v in PERSISTENT_FIELDS.items():
         ctx.trust(f"frozen persistent field: {k} - {v}")
